@@ -323,10 +323,16 @@ impl SwiftField for Field52AccountServicingInstitution {
                 let field = Field52C::parse(value)?;
                 Ok(Field52AccountServicingInstitution::C(field))
             }
-            _ => {
-                // No variant specified, fall back to default parse behavior
+            None => {
+                // No option letter given at all: fall back to the content heuristic
                 Self::parse(value)
             }
+            Some(other) => Err(ParseError::InvalidFormat {
+                message: format!(
+                    "Field52AccountServicingInstitution has no option '{}'",
+                    other
+                ),
+            }),
         }
     }
 
@@ -386,10 +392,13 @@ impl SwiftField for Field52OrderingInstitution {
                 let field = Field52D::parse(value)?;
                 Ok(Field52OrderingInstitution::D(field))
             }
-            _ => {
-                // No variant specified, fall back to default parse behavior
+            None => {
+                // No option letter given at all: fall back to the content heuristic
                 Self::parse(value)
             }
+            Some(other) => Err(ParseError::InvalidFormat {
+                message: format!("Field52OrderingInstitution has no option '{}'", other),
+            }),
         }
     }
 
@@ -469,10 +478,13 @@ impl SwiftField for Field52CreditorBank {
                 let field = Field52D::parse(value)?;
                 Ok(Field52CreditorBank::D(field))
             }
-            _ => {
-                // No variant specified, fall back to default parse behavior
+            None => {
+                // No option letter given at all: fall back to the content heuristic
                 Self::parse(value)
             }
+            Some(other) => Err(ParseError::InvalidFormat {
+                message: format!("Field52CreditorBank has no option '{}'", other),
+            }),
         }
     }
 
@@ -543,10 +555,13 @@ impl SwiftField for Field52DrawerBank {
                 let field = Field52D::parse(value)?;
                 Ok(Field52DrawerBank::D(field))
             }
-            _ => {
-                // No variant specified, fall back to default parse behavior
+            None => {
+                // No option letter given at all: fall back to the content heuristic
                 Self::parse(value)
             }
+            Some(other) => Err(ParseError::InvalidFormat {
+                message: format!("Field52DrawerBank has no option '{}'", other),
+            }),
         }
     }
 
